@@ -41,7 +41,12 @@ def run(chk):
     ill, _ = gen_prog.gen_programs(rng.randrange(10 ** 9), 150 if quick else 2000, illtyped=True)
     for k, v in stats.items():
         chk.count("gen:" + k, v)
-    progs = FIXED + CALLEE + many_diags() + gen + ill
+    from . import gen_pronoun
+    mentions = [c["src"] for c in gen_pronoun.programs(quick, rng)]
+    for rhs in ("5 with X", "2 with Y", "2 times X, X", "nothing plus X", "true and X", "5 at X", "5 is X", "not X", "5 minus X minus X", "\"s\" with X"):
+        for head in ("X is ", "Y is ", "X was ", "X's ", "the night is "):
+            mentions += [f"{head}{rhs}\nSay X\n", f"Y is 1\n{head}{rhs}\nSay X\nSay Y\n", f"Say X\n{head}{rhs}\n", f"X is 1\n{head}{rhs}\n{head}{rhs}\n"]
+    progs = FIXED + CALLEE + many_diags() + mentions + gen + ill
     lines = [f"(ana l{i} lint {C.hx(p)})" for i, p in enumerate(progs)]
     res, _ = suite.compare(chk, lines, "lint", project=lambda x: x, suite_name="LINT", crash_is_violation=True)
     bad = 0
